@@ -320,6 +320,8 @@ class node_add_source:
 
     @staticmethod
     def assume_post(self, source, result):
+        """Effect on the abstract declaration view: inserting a dependency edge changes no claim, step label, tree or glob
+        registration (the view is a function of the node / file / nglob tables, which the statement does not write)."""
         db = db_of(self)
         old = View(db.__snapshot__())
         db.bump()
